@@ -231,4 +231,141 @@ theorem covering_prefix {nrow ncol : Nat} {mask : Grid} (s : Nat → Int × Int)
   simp only [streamPrefix, List.mem_map, List.mem_range]
   exact ⟨m, h1, rfl⟩
 
+/-! ### repeated candidates are no-ops -/
+
+/-- candidate `c` cannot change state `st` any more -/
+def Dead (n : Int) (nrow ncol : Nat) (mask : Grid) (st : Int × Grid) (c : Int × Int) : Prop :=
+  fillStep n nrow ncol mask st c = st
+
+theorem dead_of_guard {n : Int} {nrow ncol : Nat} {mask : Grid} {st : Int × Grid} (c : Int × Int)
+    (h : loopGuard st.1 n = false) : Dead n nrow ncol mask st c := by
+  unfold Dead fillStep; rw [h]; simp
+
+theorem dead_of_none {n : Int} {nrow ncol : Nat} {mask : Grid} {st : Int × Grid} {c : Int × Int}
+    (h : accepts nrow ncol mask st.2 c = none) : Dead n nrow ncol mask st c := by
+  unfold Dead fillStep; rw [h]; split <;> rfl
+
+theorem dead_cases {n : Int} {nrow ncol : Nat} {mask : Grid} {st : Int × Grid} {c : Int × Int}
+    (h : Dead n nrow ncol mask st c) : loopGuard st.1 n = false ∨ accepts nrow ncol mask st.2 c = none := by
+  unfold Dead fillStep at h
+  cases hg : loopGuard st.1 n with
+  | false => exact Or.inl rfl
+  | true =>
+    rw [hg] at h
+    simp only [if_true] at h
+    cases ha : accepts nrow ncol mask st.2 c with
+    | none => exact Or.inr rfl
+    | some k =>
+      rw [ha] at h
+      simp only at h
+      have : st.1 + 1 = st.1 := congrArg Prod.fst h
+      omega
+
+theorem accepts_none_of_chosen {nrow ncol : Nat} {mask out : Grid} {c : Int × Int}
+    (h : cell out (flatIdx ncol c) = true) : accepts nrow ncol mask out c = none := by
+  cases ha : accepts nrow ncol mask out c with
+  | none => rfl
+  | some k =>
+    obtain ⟨hk, _, _, ho⟩ := accepts_some ha
+    rw [hk, h] at ho; cases ho
+
+theorem step_dead_self {n : Int} {nrow ncol : Nat} {mask : Grid} {st : Int × Grid} (c : Int × Int)
+    (h : Inv n mask st) : Dead n nrow ncol mask (fillStep n nrow ncol mask st c) c := by
+  cases hg : loopGuard st.1 n with
+  | false =>
+    have e : fillStep n nrow ncol mask st c = st := dead_of_guard c hg
+    rw [e]; exact e
+  | true =>
+    cases ha : accepts nrow ncol mask st.2 c with
+    | none =>
+      have e : fillStep n nrow ncol mask st c = st := dead_of_none ha
+      rw [e]; exact e
+    | some k =>
+      obtain ⟨hk, _, hm, _⟩ := accepts_some ha
+      have hkl : k < st.2.length := by rw [h.len]; exact cell_true_lt _ _ hm
+      have e : fillStep n nrow ncol mask st c = (st.1 + 1, st.2.set k true) := by
+        unfold fillStep; rw [hg, ha]; rfl
+      rw [e]
+      apply dead_of_none
+      apply accepts_none_of_chosen
+      show cell (st.2.set k true) (flatIdx ncol c) = true
+      rw [cell_set_true _ _ _ hkl, hk]; simp
+
+theorem step_dead_mono {n : Int} {nrow ncol : Nat} {mask : Grid} {st : Int × Grid} (c c' : Int × Int)
+    (h : Inv n mask st) (hd : Dead n nrow ncol mask st c) :
+    Dead n nrow ncol mask (fillStep n nrow ncol mask st c') c := by
+  have hm := step_mono (nrow := nrow) (ncol := ncol) c' h
+  rcases dead_cases hd with hg | hn
+  · apply dead_of_guard
+    have : ¬ st.1 ≤ n := by simpa [loopGuard] using hg
+    have h1 := hm.1
+    simp only [loopGuard, decide_eq_false_iff_not]
+    omega
+  · apply dead_of_none
+    cases ha : accepts nrow ncol mask (fillStep n nrow ncol mask st c').2 c with
+    | none => rfl
+    | some k =>
+      exfalso
+      obtain ⟨hk, hr, hmk, ho⟩ := accepts_some ha
+      have ho' : cell st.2 (flatIdx ncol c) = false := by
+        cases hc : cell st.2 (flatIdx ncol c) with
+        | false => rfl
+        | true => rw [hk, hm.2 _ hc] at ho; cases ho
+      rw [accepts_of hr (hk ▸ hmk) ho'] at hn
+      cases hn
+
+theorem run_dedupFrom {n : Int} {nrow ncol : Nat} {mask : Grid} (cs : List (Int × Int)) :
+    ∀ (seen : List (Int × Int)) {st : Int × Grid}, Inv n mask st → (∀ c ∈ seen, Dead n nrow ncol mask st c) →
+      fillRun n nrow ncol mask st (dedupFrom seen cs) = fillRun n nrow ncol mask st cs := by
+  induction cs with
+  | nil => intro seen st _ _; rfl
+  | cons c cs ih =>
+    intro seen st hi hd
+    by_cases hc : seen.contains c = true
+    · have hmem : c ∈ seen := by simpa using hc
+      have e : fillStep n nrow ncol mask st c = st := hd c hmem
+      simp only [dedupFrom, hc, if_true, fillRun, List.foldl_cons, e]
+      exact ih seen hi hd
+    · simp only [dedupFrom, hc, Bool.false_eq_true, if_false, fillRun, List.foldl_cons]
+      apply ih (c :: seen) (inv_step c hi)
+      intro c' hc'
+      rcases List.mem_cons.mp hc' with e | hin
+      · subst e; exact step_dead_self c' hi
+      · exact step_dead_mono c' c hi (hd c' hin)
+
+/-- **Repeated candidates do not matter**: the kernel's result on a candidate list equals its result on the
+list of first occurrences -/
+theorem gaussianFill_dedup (n : Int) (nrow ncol : Nat) (mask : Grid) (cs : List (Int × Int)) :
+    gaussianFill n nrow ncol mask (zeros mask.length) (dedup cs) = gaussianFill n nrow ncol mask (zeros mask.length) cs := by
+  unfold gaussianFill dedup
+  simp only
+  rw [run_dedupFrom cs [] (inv_init n mask) (fun c hc => by cases hc)]
+
+theorem run_of_done {n : Int} {nrow ncol : Nat} {mask : Grid} (more : List (Int × Int)) :
+    ∀ {st : Int × Grid}, loopGuard st.1 n = false → fillRun n nrow ncol mask st more = st := by
+  induction more with
+  | nil => intro st _; rfl
+  | cons c cs ih =>
+    intro st h
+    have e : fillStep n nrow ncol mask st c = st := dead_of_guard c h
+    simp only [fillRun, List.foldl_cons, e]
+    exact ih h
+
+/-- once the kernel has returned, further candidates are not consumed: the result is stable under extending
+the prefix -/
+theorem gaussianFill_stable {n : Int} {nrow ncol : Nat} {mask out : Grid} {cs : List (Int × Int)} {r : Grid}
+    (h : gaussianFill n nrow ncol mask out cs = some r) (more : List (Int × Int)) :
+    gaussianFill n nrow ncol mask out (cs ++ more) = some r := by
+  unfold gaussianFill at h ⊢
+  simp only at h ⊢
+  have e : fillRun n nrow ncol mask (0, out) (cs ++ more)
+      = fillRun n nrow ncol mask (fillRun n nrow ncol mask (0, out) cs) more := by
+    simp [fillRun, List.foldl_append]
+  split at h
+  · cases h
+  · rename_i hg
+    have hg' : loopGuard (fillRun n nrow ncol mask (0, out) cs).1 n = false := by simpa using hg
+    rw [e, run_of_done more hg', if_neg hg]
+    exact h
+
 end DirectVerif.C11
